@@ -614,7 +614,43 @@ def r19_notification_handlers_see_plain_notifications_only(ctx):
     R.floor("C05.R19", n, 1, "look-ups of notification handlers")
 
 
-RULES = [r19_notification_handlers_see_plain_notifications_only, rids_subscription_ids_are_read_as_written, r17_an_accepted_subscription_is_registered_or_cancelled, r18_requests_are_on_record_before_they_are_written, rsel_shutdown_is_a_select_branch, r1_classifier_agreement, r2_routing, r3_lag_and_close, r4_single_unsubscribe, r5_close_messages_are_not_lossy, r6_refused_insert_is_pure, r7_classifiers_are_plain, r8_client_builder_fields, r9_lagged_is_reported_as_lagged, r10_sub_ids_spelled_alike, r11_response_attempt_unconditional, r12_stream_ends_only_when_channel_ends, r13_channel_is_the_only_buffer, r14_classifiers_accept_any_payload, r15_routing_does_not_end_subscriptions, r16_every_notification_kind_counts_as_content, rarr_every_element, rcancel_receive_is_cancel_safe, rkeys_manager_keys_not_derived]
+def r20_each_frame_is_received_into_a_fresh_buffer(ctx):
+    """a message is what the server sent, not that plus leftovers: soketto's `receive` *appends* to the buffer it is given,
+    so the WebSocket transport hands it a fresh `Vec::new()` for every message (a buffer kept in the Receiver must be
+    cleared on every arm - text, binary, ping - or the next message arrives glued to the previous one and is unparseable)"""
+    F, R = ctx.F, ctx.R
+    tr = ctx.tracer(follow_callers=False, follow_fields=False)
+    n = 0
+    for b in F.real_bodies():
+        if b.crate != "jsonrpsee_client_transport" or is_test_body(b):
+            continue
+        for c in b.calls_to(r"soketto::(connection::)?Receiver::<.*>::receive(_data)?$"):
+            if len(c.args) < 2:
+                continue
+            n += 1
+            R.fn(b)
+            lv = tr.origins(b, c.args[1])
+            fresh = [l for l in lv if l.kind == "call" and re.search(r"Vec::<.*>::(new|with_capacity)$", l.detail["callee"] or "") and l.where == b.path]
+            R.check(bool(fresh) and len(fresh) == len(lv), "C05.R20", "%s:fresh-buffer" % fkey(b), "the receive buffer is created for this message", "%s receives into a buffer that outlives the message (%s): soketto appends, so what is left in it from an earlier frame is delivered again in front of the next message" % (short(b.path), [flow.leaf_str(l)[:60] for l in lv if l not in fresh]), where(c))
+    R.floor("C05.R20", n, 1, "soketto receive calls in the client transport")
+
+
+def r21_the_subscription_buffer_is_as_configured(ctx):
+    """`falls more than the configured buffer behind` is detected by the bounded channel being full: its capacity is the
+    configured number, unchanged (rounded up to a power of two, a buffer of 5 lags at 8)"""
+    F, R = ctx.F, ctx.R
+    tr = ctx.tracer(follow_callers=False, follow_fields=False, inline_calls=False)
+    b = F.one(r"^jsonrpsee_core::client::subscription_channel$")
+    R.fn(b)
+    ch = b.calls_to(r"mpsc::channel$")
+    R.floor("C05.R21", len(ch), 1, "channel constructions in subscription_channel")
+    for c in ch:
+        lv = tr.origins(b, c.args[0])
+        ok = bool(lv) and all(l.kind == "param" for l in lv)
+        R.check(ok, "C05.R21", "capacity-is-the-parameter", "the channel's capacity is the configured buffer size", "subscription_channel sizes the buffer with %s instead of the configured number: the lag threshold differs from the configured one" % [flow.leaf_str(l)[:60] for l in lv], where(c))
+
+
+RULES = [r20_each_frame_is_received_into_a_fresh_buffer, r21_the_subscription_buffer_is_as_configured, r19_notification_handlers_see_plain_notifications_only, rids_subscription_ids_are_read_as_written, r17_an_accepted_subscription_is_registered_or_cancelled, r18_requests_are_on_record_before_they_are_written, rsel_shutdown_is_a_select_branch, r1_classifier_agreement, r2_routing, r3_lag_and_close, r4_single_unsubscribe, r5_close_messages_are_not_lossy, r6_refused_insert_is_pure, r7_classifiers_are_plain, r8_client_builder_fields, r9_lagged_is_reported_as_lagged, r10_sub_ids_spelled_alike, r11_response_attempt_unconditional, r12_stream_ends_only_when_channel_ends, r13_channel_is_the_only_buffer, r14_classifiers_accept_any_payload, r15_routing_does_not_end_subscriptions, r16_every_notification_kind_counts_as_content, rarr_every_element, rcancel_receive_is_cancel_safe, rkeys_manager_keys_not_derived]
 
 LEVEL_TEXT = (
     "Structural necessary conditions of the client's notification demultiplexing decided from the type-checked program: "
